@@ -87,6 +87,6 @@ def main():
     json.dump(meta, open(os.path.join(dst, 'meta.json'), 'w'), indent=1)
     print(json.dumps({k: meta[k] for k in ('name', 'confirmed', 'caught', 'caught_with_failing_input')}))
     for k, v in results.items():
-        print(' ', k, v['exit'], [x.get('kind') for x in v['violations']], v['wall_s'], 's')
+        print(' ', k, v['exit'], [x.get('kind') for x in v['violations']], v.get('wall_s'), 's')
 
 main()
